@@ -1916,7 +1916,11 @@ class LLParser:
                             parser_summary, cycle_data, nullables)
 
                 if cur_symbol in processed_symbols:
-                    _next_prod(stack)
+                    if cur_symbol in nullables:
+                        # a cycle may continue behind the nullable symbol
+                        _next_symbol(stack)
+                    else:
+                        _next_prod(stack)
                     continue
                 # cur_symbol is non-terminal. May need to go deeper
                 if cur_symbol_id > 0:
